@@ -245,11 +245,12 @@ fn should_respect_ignores(opt: &opt::Opt, path: &Path) -> bool {
 }
 
 fn path_is_stylua_ignored(path: &Path, search_parent_directories: bool) -> Result<bool> {
-    let ignore = get_ignore(
-        path.parent().expect("cannot get parent directory"),
-        search_parent_directories,
-    )
-    .context("failed to parse ignore file")?;
+    // A path such as `/` (which `--stdin-filepath` accepts) has no parent directory: report it instead of panicking
+    let parent = path
+        .parent()
+        .with_context(|| format!("cannot get parent directory of '{}'", path.display()))?;
+    let ignore =
+        get_ignore(parent, search_parent_directories).context("failed to parse ignore file")?;
 
     Ok(matches!(
         ignore.matched_path_or_any_parents(path, false),
